@@ -15,6 +15,12 @@ if rnd:
         except Exception: pass
     if prev:
         avoid = "\n\nEarlier developers already tried the following changes; yours must use DIFFERENT mechanisms and code locations, and exercise a different part of the property's statement:\n" + "\n".join(prev)
+hint = ""
+if rnd in ("r4", "r5"):
+    hint = ("\n\nFor this round, look especially at parts of the property's statement and of the anchored code that the earlier changes (listed at the end) did NOT touch: "
+            "rarely used entry points of the Go API (host-side use: Thread options, Program methods, iterator protocols, Freeze, Unpack helpers), non-default dialect options, "
+            "interactions between two features that each work alone, state carried from one operation to a later one, and boundary values of internal encodings. "
+            "Make bug a and bug b differ from each other in kind (for example one wrong-result bug and one state/sequence bug).")
 print(f"""You are helping to evaluate a verification effort for the Go project google/starlark-go (a Starlark interpreter). Your job: act as a developer who introduces a subtle, realistic BUG that breaks ONE stated semantic property of the project, while the code still compiles and the project's existing test suite still passes. You will produce TWO different such bugs (call them a and b), each in a different mechanism/location.
 
 Work ONLY inside your own scratch git worktree {wt} (a checkout of the project; create nothing elsewhere except your output directory {out}). Do NOT read or list anything under /verif or /root/.vp, and do not touch /repo. No network. Every shell call must first run: export GOFLAGS=-mod=mod GOPROXY=off   (and must NOT set GOTOOLCHAIN or GOSUMDB).
@@ -35,4 +41,4 @@ Deliverables, for bug a and bug b, written to {out}/a/ and {out}/b/:
 - patch.diff  : `git diff` of the source change ONLY (not the demo), applicable with `git apply` to the worktree's base commit;
 - the demo file(s), plus a file demo_cmd.txt with the exact command that runs the demo from the worktree root (e.g. `go test ./starlark -run TestSeedDemo`), and where the demo file must be placed;
 - meta.json : {{"property": "{pid}", "summary": "...what the change does...", "needs": "...what specific condition makes it manifest...", "why_tests_pass": "...", "files": [...]}}.
-Leave the worktree clean (git checkout . ; remove untracked demo files) when you finish. Reply with a short summary of both bugs and the commands you ran to verify requirements 2-4.""" + avoid)
+Leave the worktree clean (git checkout . ; remove untracked demo files) when you finish. Do not use `git stash` (the stash is shared between worktrees): use `git diff > file`, `git checkout .`, `git apply file`. Reply with a short summary of both bugs and the commands you ran to verify requirements 2-4.""" + hint + avoid)
